@@ -10,11 +10,35 @@ DRIVERS = {
 HOOK_COMMITS = ["9dc863c"]
 
 # property id -> dict(text, note, technique, design_ref) for every claimed property
+IA_NOTE = ("Trusted: Coq kernel (no axioms), ExtrOcamlBasic extraction, OCaml driver, the real daemon built from /repo with ASan/UBSan and the guarded hooks "
+           "('<id> ! timeout', '-1 ! reload'), the '-1 ? stats2' marker for attributing output to input. Modelled, not verified: libevent, heap, dlopen; fnmatch beyond * and ?. "
+           "The hand-written model (coq/Iauth.v, Line.v) is tied to iauth_core.c / iauth_xquery.c / iauth_class.c by differential execution on every run.")
+IA_TECH = "machine-checked proof in Coq (invariants by induction over event lists) + extracted-model differential against the real daemon"
+def ia(text, ref):
+    return dict(text=text, note=IA_NOTE, technique=IA_TECH, design_ref="DESIGN.md section 6 " + ref)
 CLAIMED = {
+ "C01": ia("Theorem verdict_once_then_silence: for every configuration and every finite history the executable monitor Mon01 accepts the model's trace (every message and query tag names a live id, a verdict retires it, soft-done at most once). The same discipline is checked on the real daemon's traces by an independent monitor, and the model is compared with the daemon step by step.", "C01"),
+ "C02": ia("Theorems hold_accounting_invariant (every reachable request: holds = [+! without account], soft holds = [some query unanswered] unless timed out) and accept_only_when_ready (the gate accepts only a ready request). The daemon is compared with the model on generated histories; an accept the model does not make is reported with the minimised history.", "C02"),
+ "C03": ia("Theorems hold_accounting_invariant and gate_never_leaves_a_ready_client: a request left in the table is not ready, in every reachable state. On the daemon, a verdict the model issues and the daemon does not is reported with the minimised history (reply after timeout, two vouchers, MORE then reply, -! after +!).", "C03"),
+ "C04": ia("Theorems stray_reply_changes_nothing (a reply without a target leaves the STATE equal and prints nothing, in every state), stray_reply_is_erasable, serials_are_fresh, tag_denotes_its_instance. On the daemon: differential h vs h with a stray reply inserted at random positions, plus an in-history oracle.", "C04"),
+ "C05": ia("Theorems about the reply function for all texts: refusal_rejects_with_that_text, account_exactly_when_vouched, drone_check_account_ignored, accept_reports_account_and_class, challenges_relayed_verbatim. The daemon's k/R/D/C/M lines are compared in full with the model.", "C05"),
+ "C06": ia("Theorems query_pass_exact (the lines of a pass are exactly those of configured, eligible, not yet asked services, in slot order), query_payload_is_the_clients_own, user_name_within_limit, shapeless_password_not_forwarded. The daemon's X lines are compared in full with the model for every step.", "C06"),
+ "C07": ia("Theorem interleaving_invariance: for histories without reloads, the serial-erased lines about client c are equal for any two histories with the same events of c in the same order; plus foreign_lines_are_invisible on concrete lines and the abstract/concrete step correspondence. On the daemon: random order-preserving interleavings (with reload barriers) vs solo runs.", "C07"),
+ "C08": dict(ia("PARTIAL. Proved on the model: argument_vector_bounded (<= 16), junk_line_changes_nothing, junk_lines_are_removable, line_splitting_ignores_chunking, prefix_of_stream_gives_prefix_of_lines. Not proved: absence of memory errors in the C code - observed with ASan/UBSan on byte streams (junk, mutations, every prefix, random bytes, re-chunking) whose stdout must equal the model's.", "C08"), technique="machine-checked proof in Coq on the line/tokenizer/dispatch model + sanitizer-instrumented differential on byte streams (memory safety observed, not proved)"),
+ "C09": ia("Theorems every_output_line_is_wellformed (from start-up on, across reloads, under stated operator/protocol assumptions), client_messages_correctly_addressed, parser_result_is_an_address, stored_address_text_is_a_word; with C12 the echoed text denotes the announced address. On the daemon every stdout line is matched against the message grammar and every client message against the announcement.", "C09"),
+ "C10": dict(ia("PARTIAL. Theorem in_use_is_live_count: after every prefix of every history the table size equals the monitor's live count. Release of memory and timers is observed (LeakSanitizer at exit, real one-shot timers in the thorough tier), not proved. The daemon's 'N in use' is compared after every line, including histories with hundreds of ids.", "C10"), technique="machine-checked proof in Coq + extracted-model differential; heap/timer release observed by sanitizers"),
+ "C11": ia("Theorems class_is_first_matching_rule, no_class_when_no_rule_matches, trust_username_upgrade, class_within_limit. Rule tables with all criteria (globs, CIDR/wildcard masks, xreply_ok) x client attributes on the daemon, class field and U lines compared with the model. Name order of rules is the configuration tree's order (C15/C16 side).", "C11"),
+ "C12": dict(text="Theorems for ALL addresses (8 groups < 65536) on the model compared byte-for-byte with iauth_misc.c: text_roundtrips_through_own_parser (canonicalising IPv4-compatible to mapped), text_roundtrips_through_reference_parser, text_never_begins_with_colon, text_fits_documented_buffer, parse_then_print_is_idempotent, text_determines_address. On the implementation the property itself is checked per address (inet_pton included) over all 3^8 group patterns and random values.",
+             note="Trusted: Coq kernel (no axioms), extraction, drivers, harness h_addr.c. inet_pton is represented in the theorems by the list-level reference parser AddrRef.ref_pton; their agreement is tested on every run, not proved.",
+             technique="machine-checked proof in Coq (simulation of the char-level parser, invariant of the zero-run scan, finite nibble sweeps lifted by lemmas) + differential against irc_ntop/irc_pton/inet_pton", design_ref="DESIGN.md section 6 C12"),
+ "C13": dict(text="Theorems mask_test_exact (for all addresses and lengths <= 128: test succeeds iff the leading bits agree, by bit reasoning), parsers_agree_on_printed_addresses, and (C09 file) parser_result_is_an_address for ALL strings. CIDR / wildcard meaning and agreement with inet_pton are checked on the implementation with python-computed expectations; all strings over the address alphabet up to a bound under ASan.",
+             note="Trusted as C12. The documented meaning of CIDR/wildcard texts is checked by the correspondence and an independent oracle, not yet stated as theorems (partial for that clause).",
+             technique="machine-checked proof in Coq (N.testbit reasoning) + exhaustive/differential testing of irc_pton and irc_check_mask", design_ref="DESIGN.md section 6 C13"),
+ "C17": ia("Theorems reload_is_like_a_fresh_start (configured (service, protocol) view after a reload is a permutation of the fresh daemon's, which is the file's entries in order; rules replaced literally), reload_touches_only_the_tables, queries_depend_on_configured_services_only. On the daemon: reloaded (hook; SIGUSR1 in thorough) vs fresh daemon on every edit kind, probe clients afterwards.", "C17"),
  "C19": dict(
-   text="Coq theorems over a functional top-down splay with threaded chain: splay preserves the in-order sequence for every comparator, and find/insert refine a sorted association list (invariant: search order, chain = in-order, count). The model is tied to src/set.c on every run by differential execution (complete exploration of reachable shapes over a small key universe, random sequences, extreme ints), comparing results, iteration order, disposal log and a structural audit.",
-   note="Trusted: Coq kernel, ExtrOcamlBasic extraction, OCaml driver, C harness h_set.c, ASan/UBSan. Pointer-level memory management of set.c is observed (audit, sanitizers), not proved.",
-   technique="machine-checked proof in Coq (induction on tree size; refinement to a sorted list) + extracted-model differential against src/set.c",
+   text="Theorems for EVERY operation sequence: set_is_a_sorted_map (results, iteration order, count, disposal log equal those of a sorted association list), cleanup_exactly_once (inserted = disposed + still in set + released, no tag twice), the same for every total-preorder comparator, the stock comparators are total preorders over their whole domain, and the subtraction comparator of the pinned tree is refuted (D7). The model is tied to src/set.c by complete exploration of reachable shapes, random sequences with extreme ints and node reuse, with a structural audit.",
+   note="Trusted: Coq kernel (no axioms), ExtrOcamlBasic extraction, OCaml driver, C harness h_set.c, ASan/UBSan. Pointer-level memory management of set.c is observed (audit, sanitizers), not proved.",
+   technique="machine-checked proof in Coq (induction on tree size; refinement to a sorted list; ledger permutation) + extracted-model differential against src/set.c",
    design_ref="DESIGN.md section 6 C19"),
 }
 
